@@ -398,6 +398,9 @@ fn script_block(args: &str) -> Option<String> {
     }
 }
 
+/// Per body: the selector / JSON value / invocation it contributes (computed once).
+static ITEMS: once_cell::sync::Lazy<Vec<String>> = once_cell::sync::Lazy::new(|| (0..NB).map(item_of).collect());
+
 /// What a returned item of some field corresponds to in the body table.
 fn item_of(b: usize) -> String {
     match BODIES[b].kind {
@@ -445,35 +448,74 @@ fn masks(rules: &[&Rule], effs: &[Eff]) -> Masks {
     m
 }
 
-enum Model {
-    Must(Res),
-    Unspec(&'static str),
+/// Items the property does not pin for this case: executed, not compared.
+#[derive(Default, Debug)]
+struct Skip {
+    /// plain selectors left out of the `hide_selectors` and `exceptions` comparison
+    selectors: BTreeSet<String>,
+    /// procedural / action JSON values left out
+    procedural: BTreeSet<String>,
+    /// script invocations left out
+    blocks: BTreeSet<String>,
+    /// the whole injected script is left out
+    all_script: bool,
+    reasons: BTreeSet<&'static str>,
+}
+
+impl Skip {
+    fn any(&self) -> bool {
+        !self.reasons.is_empty()
+    }
+    fn body(&mut self, b: usize, why: &'static str) {
+        self.reasons.insert(why);
+        match BODIES[b].kind {
+            Kind::Plain => {
+                self.selectors.insert(BODIES[b].sel.to_string());
+            }
+            Kind::Action => {
+                self.procedural.insert(ITEMS[b].clone());
+            }
+            Kind::Script => {
+                if b == BLANKET {
+                    self.all_script = true;
+                } else if !ITEMS[b].is_empty() {
+                    self.blocks.insert(ITEMS[b].clone());
+                }
+            }
+        }
+    }
 }
 
 fn is_misc(sel: &str) -> bool {
     !sel.starts_with('.') && !sel.starts_with('#')
 }
 
-fn model(rules: &[&Rule], effs: &[Eff], generichide: bool) -> Model {
-    if effs.iter().any(|e| e.unspec) {
-        return Model::Unspec("only-negated-locations-with-action-or-script");
+const WHY_ONLY_NEG: &str = "only-negated-locations-with-action-or-script";
+const WHY_CROSS_NEG: &str = "negated-location-vs-other-rule";
+
+fn model(rules: &[&Rule], effs: &[Eff], generichide: bool) -> (Res, Skip) {
+    let mut skip = Skip::default();
+    for (r, e) in rules.iter().zip(effs) {
+        if e.unspec {
+            skip.body(r.body, WHY_ONLY_NEG);
+        }
     }
     let m = masks(rules, effs);
     // A negated location of one rule is an exception for that rule at that host. Whether it also
     // takes away what *another* rule (or an unscoped rule) provides for the same host is not
-    // stated by the property: not compared.
+    // stated by the property: that body is not compared.
     for b in 0..NB {
         let mut neg = m.minus_neg[b];
         while neg != 0 {
             let bit = neg & neg.wrapping_neg();
             neg &= !bit;
             if (m.plus[b] | m.generic[b]) & !bit != 0 {
-                return Model::Unspec("negated-location-vs-other-rule");
+                skip.body(b, WHY_CROSS_NEG);
             }
             if b == BLANKET {
                 for b2 in 0..NB {
                     if BODIES[b2].kind == Kind::Script && m.plus[b2] & !bit != 0 {
-                        return Model::Unspec("negated-location-vs-other-rule");
+                        skip.body(BLANKET, WHY_CROSS_NEG);
                     }
                 }
             }
@@ -496,22 +538,25 @@ fn model(rules: &[&Rule], effs: &[Eff], generichide: bool) -> Model {
             Kind::Plain => {
                 if minus {
                     res.exceptions.insert(body.sel.to_string());
-                } else if m.plus[b] != 0 || (m.generic[b] != 0 && is_misc(body.sel) && !generichide) {
+                } else if m.plus[b] != 0
+                    || (m.generic[b] != 0 && is_misc(body.sel) && !generichide)
+                {
                     res.hide.insert(body.sel.to_string());
                 }
             }
             Kind::Action => {
                 if m.plus[b] != 0 && !minus {
-                    res.procedural.insert(action_json(body));
+                    res.procedural.insert(ITEMS[b].clone());
                 }
             }
             Kind::Script => {
                 if m.plus[b] != 0 && !minus && !blanket {
-                    if let Some(block) = script_block(body.sel) {
+                    let block = &ITEMS[b];
+                    if !block.is_empty() {
                         if block.starts_with("s1(") {
                             s1_used = true;
                         }
-                        res.blocks.push(block);
+                        res.blocks.push(block.clone());
                     }
                 }
             }
@@ -522,7 +567,25 @@ fn model(rules: &[&Rule], effs: &[Eff], generichide: bool) -> Model {
     if s1_used {
         res.preamble = format!("{}\n", S1_CONTENT);
     }
-    Model::Must(res)
+    (res, skip)
+}
+
+/// Removes the items that are not compared from one side.
+fn without_skipped(r: &Res, skip: &Skip) -> Res {
+    let script_skipped = skip.all_script || !skip.blocks.is_empty();
+    Res {
+        hide: r.hide.difference(&skip.selectors).cloned().collect(),
+        procedural: r.procedural.difference(&skip.procedural).cloned().collect(),
+        exceptions: r.exceptions.difference(&skip.selectors).cloned().collect(),
+        // the function definitions in front of the invocations depend on every invocation
+        preamble: if script_skipped { String::new() } else { r.preamble.clone() },
+        blocks: if skip.all_script {
+            vec![]
+        } else {
+            r.blocks.iter().filter(|b| !skip.blocks.contains(*b)).cloned().collect()
+        },
+        generichide: r.generichide,
+    }
 }
 
 // ------------------------------------------------------------------------------------------------
@@ -616,6 +679,20 @@ fn cover_reason(l: &Loc, p: &Page) -> &'static str {
     }
 }
 
+/// Non-covering relations, most suspicious first.
+const NONCOVER_RANK: [&str; 10] = [
+    "above-registrable-domain",
+    "unaligned-suffix",
+    "entity-unaligned-suffix",
+    "prefix-of-host",
+    "entity-prefix-of-host",
+    "location-below-host",
+    "entity-below-host",
+    "entity-on-host-without-suffix",
+    "unrelated-host",
+    "entity-unrelated",
+];
+
 /// How a non-covering location relates to the page host.
 fn noncover_reason(l: &Loc, p: &Page) -> &'static str {
     if l.entity {
@@ -656,7 +733,7 @@ fn cause(field: &str, missing: bool, item: &str, rules: &[&Rule], effs: &[Eff], 
             "procedural" => k == Kind::Action,
             _ => k == Kind::Script,
         };
-        right_field && item_of(b) == item && !item.is_empty()
+        right_field && ITEMS[b] == item && !item.is_empty()
     }) {
         Some(b) => b,
         None => return "item-of-no-rule".into(),
@@ -683,15 +760,21 @@ fn cause(field: &str, missing: bool, item: &str, rules: &[&Rule], effs: &[Eff], 
         return "expected-without-rule".into();
     }
     // extra
+    // the location (of a rule with this body) that comes closest to covering the host is blamed
+    let closest = |want: &dyn Fn(&Rule, &Loc) -> bool| -> Option<&'static str> {
+        with_body
+            .iter()
+            .flat_map(|(_, r)| r.locs.iter().filter(move |l| want(r, l) && !covers(l, p)))
+            .map(|l| noncover_reason(l, p))
+            .min_by_key(|r| NONCOVER_RANK.iter().position(|x| x == r).unwrap_or(NONCOVER_RANK.len()))
+    };
     if field == "exceptions" {
-        for (_, r) in &with_body {
-            if let Some(l) = r.locs.iter().find(|l| l.neg || r.unhide) {
-                return format!("no-exception-covers.{}.{}", noncover_reason(l, p), ps);
-            }
-        }
-        return "no-exception-rule".into();
+        return match closest(&|r, l| l.neg || r.unhide) {
+            Some(reason) => format!("no-exception-covers.{}.{}", reason, ps),
+            None => "no-exception-rule".into(),
+        };
     }
-    for (i, r) in &with_body {
+    for (i, _) in &with_body {
         let e = &effs[*i];
         if e.minus_unhide {
             return "returned-although-unhidden".into();
@@ -699,12 +782,11 @@ fn cause(field: &str, missing: bool, item: &str, rules: &[&Rule], effs: &[Eff], 
         if e.minus_neg {
             return "returned-although-negated-location-covers".into();
         }
-        let _ = r;
     }
     if field == "script" && rules.iter().zip(effs).any(|(r, e)| r.body == BLANKET && (e.minus_unhide || e.minus_neg)) {
         return "blanket-script-exception-ignored".into();
     }
-    for (i, r) in &with_body {
+    for (i, _) in &with_body {
         let e = &effs[*i];
         if e.generic {
             if gh {
@@ -714,11 +796,9 @@ fn cause(field: &str, missing: bool, item: &str, rules: &[&Rule], effs: &[Eff], 
                 return "generic-class-or-id-selector-returned".into();
             }
         }
-        if let Some(l) = r.locs.iter().find(|l| !l.neg) {
-            if !covers(l, p) {
-                return format!("not-covered.{}.{}", noncover_reason(l, p), ps);
-            }
-        }
+    }
+    if let Some(reason) = closest(&|_, l| !l.neg) {
+        return format!("not-covered.{}.{}", reason, ps);
     }
     "returned-without-covering-rule".into()
 }
@@ -738,7 +818,7 @@ fn case_json(rules: &[&Rule], gh: usize, p: &Page) -> Value {
     json!({"rules": rules.iter().map(|r| r.text.clone()).collect::<Vec<_>>(), "generichide_rule": GH_RULES[gh], "gh": gh, "url": p.url})
 }
 
-fn check_list(rules: &[&Rule], effs_by_page: &[Vec<Eff>], pages: &[Page], ghs: &[usize], res: &[Resource], l: &mut Local, sample: bool) {
+fn check_list(rules: &[&Rule], effs_by_page: &[Vec<Eff>], pages: &[Page], ghs: &[usize], res: &[Resource], l: &mut Local, sample: Option<(usize, usize)>) {
     let size_base: u64 = rules.len() as u64 * 100_000 + rules.iter().map(|r| r.text.len() as u64).sum::<u64>() * 100;
     for &gh in ghs {
         let eng = match catch(|| build_engine(rules, gh, res)) {
@@ -772,13 +852,17 @@ fn check_list(rules: &[&Rule], effs_by_page: &[Vec<Eff>], pages: &[Page], ghs: &
                 }
             };
             let ghide = gh == 1 && p.under_example_com;
-            let exp = match model(rules, effs, ghide) {
-                Model::Unspec(why) => {
-                    l.unspecified += 1;
-                    l.count(&format!("unspecified:{}", why), 1);
-                    continue;
+            let (exp_full, skip) = model(rules, effs, ghide);
+            let got_full = got;
+            let (exp, got) = if skip.any() {
+                // part of the answer is not pinned by the property: counted, the rest is compared
+                l.unspecified += 1;
+                for why in &skip.reasons {
+                    l.count(&format!("partly-unspecified:{}", why), 1);
                 }
-                Model::Must(e) => e,
+                (without_skipped(&exp_full, &skip), without_skipped(&got_full, &skip))
+            } else {
+                (exp_full, got_full)
             };
             l.compared += 1;
             if effs.iter().any(|e| e.plus || e.minus_unhide || e.minus_neg) || !exp.hide.is_empty() {
@@ -792,7 +876,7 @@ fn check_list(rules: &[&Rule], effs_by_page: &[Vec<Eff>], pages: &[Page], ghs: &
                 got.blocks.len(),
                 got.generichide as u8
             ));
-            if sample && l.samples.len() < 3 && pi == (rules.len() * 5 + gh) % pages.len() {
+            if sample == Some((gh, pi)) && l.samples.len() < 3 {
                 l.samples.push(json!({"case": case_json(rules, gh, p), "host_lookup": p.host_lookup, "entity_lookup": p.entity_lookup,
                     "observed": {"hide": got.hide, "procedural": got.procedural, "exceptions": got.exceptions, "script_blocks": got.blocks, "generichide": got.generichide}}));
             }
@@ -871,7 +955,7 @@ fn replay(case: &Value, l: &mut Local) {
     };
     let pages = vec![page];
     let effs = effs_for(&rules, &pages);
-    check_list(&rules, &effs, &pages, &[gh], &resources(), l, false);
+    check_list(&rules, &effs, &pages, &[gh], &resources(), l, None);
 }
 
 /// Two rules can interact: same location form, same body, or a `+js` body next to the blanket
@@ -956,7 +1040,7 @@ fn check(ctx: &Ctx) -> i32 {
         nth_arrangement(i, n, &mut idx);
         let rs: Vec<&Rule> = idx.iter().map(|&k| &rules[k]).collect();
         let effs = effs_of(&idx);
-        let sample = (i + ctx.seed) % 7919 == 11;
+        let sample = if (i + ctx.seed) % 7919 == 11 { Some(((i % 3) as usize, (i / 3) as usize % pages.len())) } else { None };
         check_list(&rs, &effs, &pages, &ghs, &res, l, sample);
     });
 
@@ -980,18 +1064,18 @@ fn check(ctx: &Ctx) -> i32 {
                 let rs = [&rules[i], &rules[j], &rules[k]];
                 let effs = effs_of(&idx);
                 l.count("connected_triples", 1);
-                check_list(&rs, &effs, &pages, &ghs, &res, l, false);
+                check_list(&rs, &effs, &pages, &ghs, &res, l, None);
             }
         });
     }
 
     ctx.finish(
         "model_checking",
-        "every ordered list without repetition of <= 2 rules (thorough: plus every ordered triple whose rules are connected by a shared location form / body / blanket +js()) of the alphabet {33 location forms x 10 bodies x ##/#@#, minus documented-invalid forms} x 3 network sides (none, @@||example.com^$generichide, unrelated generichide) x page URLs; every (list, side, page) runs url_cosmetic_resources on a freshly built engine with scriptlets s1 (function style) and s2 (template) and compares hide_selectors, procedural_actions (as JSON values), exceptions, generichide, the multiset of try-blocks and the text before them; non-trivial = some rule of the list covers or is excepted/negated for the page host, or a generic selector is returned; states = engines built, transitions = queries",
+        "every ordered list without repetition of <= 2 rules (thorough: plus every ordered triple whose rules are connected by a shared location form / body / blanket +js()) of the alphabet {36 location forms x 10 bodies x ##/#@#, minus documented-invalid forms} x 3 network sides (none, @@||example.com^$generichide, unrelated generichide) x page URLs; every (list, side, page) runs url_cosmetic_resources on a freshly built engine with scriptlets s1 (function style) and s2 (template) and compares hide_selectors, procedural_actions (as JSON values), exceptions, generichide, the multiset of try-blocks and the text before them; non-trivial = some rule of the list covers or is excepted/negated for the page host, or a generic selector is returned; states = engines built, transitions = queries",
         &[
             "addr::psl's public suffix data is trusted (used by both sides); idna::domain_to_ascii is trusted for the IDN host",
-            "a negated location is read as an exception for that location (uBO reading; the source documents it); where that reading and 'the rule just does not cover the host' differ — another rule or an unscoped rule provides the same body for the host — the case is Unspecified",
-            "a rule with only negated locations and an action or +js body is Unspecified (the source documents that no generic half is created)",
+            "a negated location is read as an exception for that location (uBO reading; the source documents it); where that reading and 'the rule just does not cover the host' differ — another rule or an unscoped rule provides the same body for the host — that body is Unspecified (left out of the comparison; the rest of the answer is compared)",
+            "the body of a rule with only negated locations and an action or +js body is Unspecified (the source documents that no generic half is created); the rest of the answer is compared; such cases count in both unspecified_cases and traces_validated",
             "an exception removes exactly the rule body with the same text (+js(s1) does not except +js(s1, arg)); only #@#+js() is a blanket exception",
             "hash-map seeds inside the engine are redrawn per engine, not enumerated; results are compared as sets",
             "hostname / entity name-space overlap (example##x vs example.*##x) is not generated (checked at start-up)",
